@@ -57,6 +57,7 @@ impl C08 {
             ("flatmap", ns * ns),
             ("iterators", ns),
             ("operations_new", 4 * 4 * 4),
+            ("long", (0..=8u32).map(|m| 3u64.pow(m)).sum()),
         ];
         C08 { segs, raw_sizes, small_maps, families }
     }
@@ -299,6 +300,70 @@ impl C08 {
                 let o = Operations::<K, u8, u8>::singleton(9, sf(&[1u8, 2]), sf(&[3u8]));
                 ensure(o.len() == 1 && o.x.0 .0 == vec![9] && decode_seg_sf(&o.a, "a")? == vec![vec![1, 2]] && decode_seg_sf(&o.b, "b")? == vec![vec![3]], || "Operations::singleton".into())?;
                 Ok(!expect)
+            }
+            "long" => {
+                // up to 8 segments, each one of [], [0], [1,0], over a codomain of 2
+                let opts: [Vec<usize>; 3] = [vec![], vec![0], vec![1, 0]];
+                let mut r = i;
+                let mut m = 0u32;
+                while r >= 3u64.pow(m) {
+                    r -= 3u64.pow(m);
+                    m += 1;
+                }
+                let mut x: Vec<Vec<usize>> = vec![];
+                for _ in 0..m {
+                    x.push(opts[(r % 3) as usize].clone());
+                    r /= 3;
+                }
+                let n = x.len();
+                let ic = seg(&x, 2);
+                ensure(dec_ic(&ic)? == x && ic.len() == n, || "build/decode/len".into())?;
+                // re-index along identity, reversal, a constant map, every second segment, a doubled list
+                let maps: Vec<Vec<usize>> = vec![(0..n).collect(), (0..n).rev().collect(), vec![n.saturating_sub(1); n.min(3)], (0..n).step_by(2).collect(), (0..n).chain(0..n).collect()];
+                for mp in maps {
+                    if n == 0 && !mp.is_empty() {
+                        continue;
+                    }
+                    let r = ic.map_indexes(&ff(&mp, n)).ok_or_else(|| format!("map_indexes({:?}, {:?}) is None", x, mp))?;
+                    let e: Vec<Vec<usize>> = mp.iter().map(|&k| x[k].clone()).collect();
+                    ensure(dec_ic(&r)? == e, || format!("map_indexes({:?}, {:?}) = {:?}", x, mp, dec_ic(&r)))?;
+                }
+                let sw = ic.map_values(&ff(&[1, 0], 2)).ok_or("map_values None")?;
+                ensure(dec_ic(&sw)? == x.iter().map(|l| l.iter().map(|v| 1 - v).collect()).collect::<Vec<Vec<usize>>>(), || format!("map_values(swap) on {:?}", x))?;
+                let co = ic.coproduct(&ic).ok_or("coproduct None")?;
+                ensure(dec_ic(&co)? == [x.clone(), x.clone()].concat(), || format!("coproduct({:?}, itself)", x))?;
+                let te = ic.tensor(&ic);
+                ensure(dec_ic(&te)? == x.iter().cloned().chain(x.iter().map(|l| l.iter().map(|v| v + 2).collect())).collect::<Vec<_>>() && te.values.target == 4, || format!("tensor({:?}, itself)", x))?;
+                // flatmap into a fixed two-segment array; flatmap_sources over one segment per value
+                let y = seg(&[vec![2, 0, 1], vec![]], 3);
+                let fm = ic.flatmap(&y);
+                ensure(dec_ic(&fm)? == x.iter().map(|l| l.iter().flat_map(|&j| if j == 0 { vec![2, 0, 1] } else { vec![] }).collect()).collect::<Vec<Vec<usize>>>() && fm.values.target == 3, || format!("flatmap on {:?}", x))?;
+                let total: usize = x.iter().map(|l| l.len()).sum();
+                let z: Vec<Vec<usize>> = (0..total).map(|k| (0..(k % 3)).collect()).collect();
+                let fs = ic.flatmap_sources(&seg(&z, 2));
+                let mut e = vec![];
+                let mut p = 0;
+                for l in x.iter() {
+                    let mut sg: Vec<usize> = vec![];
+                    for _ in 0..l.len() {
+                        sg.extend(z[p].iter().cloned());
+                        p += 1;
+                    }
+                    e.push(sg);
+                }
+                ensure(dec_ic(&fs)? == e, || format!("flatmap_sources on {:?}", x))?;
+                // iterator: next() all the way with the length report after every step
+                let mut it = seg(&x, 2).into_iter();
+                for k in 0..=n {
+                    ensure(ExactSizeIterator::len(&it) == n - k && it.size_hint() == (n - k, Some(n - k)), || format!("len()/size_hint() after {} of {} next() calls", k, n))?;
+                    let g = it.next();
+                    if k < n {
+                        ensure(g.map(|f| f.table.0) == Some(x[k].clone()), || format!("next() #{} of {:?}", k, x))?;
+                    } else {
+                        ensure(g.is_none(), || "next() after the end is Some".into())?;
+                    }
+                }
+                Ok(n >= 4)
             }
             other => Err(format!("unknown family {}", other)),
         }
